@@ -25,6 +25,7 @@ type c03Case struct {
 	Bad     string // "", "zero-mod-q", "congruent"
 	Sched   SchedSpec
 	PrePerm []int
+	GenPre  []int `json:",omitempty"` // ECDSA: sorted party indices that pass no pre-parameters (the library generates them)
 }
 
 func genC03(edd bool) func(t *rapid.T) c03Case {
@@ -108,6 +109,9 @@ func runC03(c c03Case) ev.Outcome {
 		pre := preParams()
 		for i := 0; i < c.N; i++ {
 			cfg.Pre = append(cfg.Pre, pre[c.PrePerm[i]])
+		}
+		for _, g := range c.GenPre {
+			cfg.Pre[g] = eckeygen.LocalPreParams{}
 		}
 	}
 	net, ids := sim.NewKeygen(cfg)
@@ -207,6 +211,12 @@ func runC03(c c03Case) ev.Outcome {
 		// saved pre-parameters are the ones supplied
 		for i, k := range ecs {
 			sup := cfg.Pre[i]
+			if sup.PaillierSK == nil { // generated by the library: the full structure must hold
+				if err := checkPreParams(&k.LocalPreParams); err != nil {
+					return fail("preparams", "party %d generated and saved pre-parameters of the wrong structure: %v", i, err)
+				}
+				continue
+			}
 			if k.PaillierSK.N.Cmp(sup.PaillierSK.N) != 0 || k.NTildei.Cmp(sup.NTildei) != 0 || k.H1i.Cmp(sup.H1i) != 0 || k.H2i.Cmp(sup.H2i) != 0 ||
 				k.Alpha.Cmp(sup.Alpha) != 0 || k.Beta.Cmp(sup.Beta) != 0 || k.P.Cmp(sup.P) != 0 || k.Q.Cmp(sup.Q) != 0 {
 				return fail("preparams", "party %d saved pre-parameters that differ from the supplied ones", i)
@@ -235,4 +245,24 @@ func TestC03KeygenEdDSA(t *testing.T) {
 func TestC03KeygenECDSA(t *testing.T) {
 	r := ev.New(t, "C03")
 	ev.Drive(t, r, genC03(false), runC03)
+}
+
+// TestC03GeneratedPreParams: ECDSA parties that pass no pre-parameters (generated by the library in round 1).
+func TestC03GeneratedPreParams(t *testing.T) {
+	r := ev.New(t, "C03")
+	q := ref.Secp.N
+	mk := func(n, th int, gen []int, k int) c03Case {
+		return c03Case{N: n, T: th, Pattern: "random256", Keys: hxs(detPartyKeys("random256", n, q, fmt.Sprintf("c03-gen/%d/%d", ev.Seed(), k))),
+			Sched: SchedSpec{Kind: "fifo"}, PrePerm: []int{0, 1, 2, 3, 4}, GenPre: gen}
+	}
+	cases := []c03Case{mk(3, 1, []int{int(ev.Seed() % 3)}, 0)}
+	if ev.Tier() == "thorough" {
+		cases = append(cases, mk(3, 2, []int{0, 1, 2}, 1), mk(2, 1, []int{1}, 2), mk(4, 2, []int{0, 3}, 3))
+	}
+	ev.Each(t, r, cases, func(c c03Case) ev.Outcome {
+		out := runC03(c)
+		out.Label += fmt.Sprintf(" generated-preparams=%v", c.GenPre)
+		out.Nontrivial = true
+		return out
+	})
 }
